@@ -1,5 +1,25 @@
 import DFV.Drv.C13
+import DFV.DrvLoop
+import DFV.Model.C14
 namespace DFV.Drv
-/-- C14 shares the transformation driver of C13 -/
-def c14 := c13
+open Lean DFV DFV.T DFV.C14
+
+def c14own (op : String) (j : Json) : Option (R Json) :=
+  match op with
+  | "sel_plane" => some do
+      let m ← meshOfJson (← fld j "mesh")
+      let ax ← natOfJson (← fld j "ax")
+      let x ← match fldOpt j "x" with | some v => some <$> ratOfJson v | none => pure none
+      pure (resJ meshToJson (selPlane m ax x))
+  | "sel_range" => some do
+      let m ← meshOfJson (← fld j "mesh")
+      let ax ← natOfJson (← fld j "ax")
+      pure (resJ meshToJson (selRange m ax (← ratOfJson (← fld j "a")) (← ratOfJson (← fld j "b"))))
+  | "get_name" => some do
+      let m ← meshOfJson (← fld j "mesh")
+      pure (resJ meshToJson (getName m (← strOfJson (← fld j "name"))))
+  | _ => none
+
+/-- C14 = transformation driver of C13 + selection ops -/
+def c14 := orElseH [c13, c14own]
 end DFV.Drv
